@@ -1,6 +1,7 @@
 import NomtModel.Store.WalkerModel
 import NomtModel.Store.WalkerTreeRun3
 import NomtModel.Core.TriePosReach
+import NomtModel.Store.PageDiffLemmas
 /-!
 # The mirror of `PageWalker` simulates the tree walker
 
@@ -47,10 +48,23 @@ def PageMatches (sp : StackPage Node) (st : Store Node) : Prop :=
   sp.page.nodes.length = 126 ∧
   ∀ q, q ≠ [] → q.length ≤ 256 → specPage q = sp.pageId → sp.page.nodes.getD (specIndex q) H.term = st q
 
-/-- an output page is the page as it was when it was popped: its slots are what the logged store held -/
-def OutMatches (o : PageOut Node) (log : List (PageId × Store Node)) : Prop :=
+/-- the content a stack page started from: what `fresh` handed out, or the page of the page set -/
+def BaseOf (ps : PageSet Node) (P : PageId) (base : List Node) : Prop :=
+  base = ps.fresh P ∨ ∃ e o, ps.get P = some (⟨base, e⟩, o)
+
+/-- the diff of a page names every slot whose content differs from what the page started from -/
+def DiffNames (nodes base : List Node) (d : PageDiff) : Prop :=
+  ∀ i, i < 126 → nodes.getD i H.term ≠ base.getD i H.term → d.changed i = true
+
+def DiffOK (ps : PageSet Node) (sp : StackPage Node) : Prop :=
+  ∃ base, BaseOf ps sp.pageId base ∧ DiffNames H sp.page.nodes base sp.diff
+
+/-- an output page is the page as it was when it was popped: its slots are what the logged store held, and its diff names
+every slot that differs from what the page started from -/
+def OutMatches (ps : PageSet Node) (o : PageOut Node) (log : List (PageId × Store Node)) : Prop :=
   ∃ P pg d b st, o = .updated P pg d b ∧ (P, st) ∈ log ∧ pg.nodes.length = 126 ∧
-    ∀ q, q ≠ [] → q.length ≤ 256 → specPage q = P → pg.nodes.getD (specIndex q) H.term = st q
+    (∀ q, q ≠ [] → q.length ≤ 256 → specPage q = P → pg.nodes.getD (specIndex q) H.term = st q) ∧
+    ∃ base, BaseOf ps P base ∧ DiffNames H pg.nodes base d
 
 structure Sim (ps : PageSet Node) (w : Walker Node) (a : TW Node) : Prop where
   wf : w.position.WF
@@ -63,7 +77,9 @@ structure Sim (ps : PageSet Node) (w : Walker Node) (a : TW Node) : Prop where
   counters : ∀ sp ∈ w.stack, CountersOK sp
   norecon : w.reconstruction = false
   cpr : w.childPageRoots.map (fun e => (e.1.path, e.2)) = a.cpr
-  outs : ∀ o ∈ w.outputPages, OutMatches H o a.log
+  outs : ∀ o ∈ w.outputPages, OutMatches H ps o a.log
+  nofix : w.preFix = false
+  diffs : ∀ sp ∈ w.stack, DiffOK H ps sp
 
 /-! ## slots and paths -/
 
@@ -141,10 +157,10 @@ variable (ps : PageSet Node)
 /-- replacing the page on top of the stack (same id, same counters) and the flat store consistently -/
 theorem sim_update_top {w : Walker Node} {a : TW Node} (h : Sim H ps w a) (top : StackPage Node) (rest : List (StackPage Node))
     (hst : w.stack = top :: rest) (top' : StackPage Node) (st' : Store Node)
-    (hid : top'.pageId = top.pageId) (hc : CountersOK top')
+    (hid : top'.pageId = top.pageId) (hc : CountersOK top') (hdf : DiffOK H ps top')
     (hm : PageMatches H top' st') (hrest : ∀ sp ∈ rest, PageMatches H sp st') (hroot : st' [] = a.store []) :
     Sim H ps { w with stack := top' :: rest } { a with store := st' } := by
-  refine ⟨h.wf, h.pos, ?_, ?_, ?_, ?_, ?_, ?_, h.norecon, h.cpr, h.outs⟩
+  refine ⟨h.wf, h.pos, ?_, ?_, ?_, ?_, ?_, ?_, h.norecon, h.cpr, h.outs, h.nofix, ?_⟩
   · show w.root = st' []
     rw [hroot]; exact h.root
   · constructor
@@ -167,6 +183,10 @@ theorem sim_update_top {w : Walker Node} {a : TW Node} (h : Sim H ps w a) (top :
     rcases List.mem_cons.mp hsp with e | hsp'
     · rw [e]; exact hc
     · exact h.counters sp (by rw [hst]; exact List.mem_cons_of_mem _ hsp')
+  · intro sp hsp
+    rcases List.mem_cons.mp hsp with e | hsp'
+    · rw [e]; exact hdf
+    · exact h.diffs sp (by rw [hst]; exact List.mem_cons_of_mem _ hsp')
 
 /-- the stack is not empty below the top layer -/
 theorem sim_stack_cons {w : Walker Node} {a : TW Node} (h : Sim H ps w a) (hd : 6 * k0 w.parentPage < a.pos.length) :
@@ -234,7 +254,8 @@ theorem Same.trans' {w1 w2 w3 : Walker Node} (h1 : Same w1 w2) (h2 : Same w2 w3)
 /-- writing one slot of the page on top of the stack = writing the flat store at the slot's path -/
 theorem sim_write_top {w : Walker Node} {a : TW Node} (h : Sim H ps w a) (top : StackPage Node)
     (rest : List (StackPage Node)) (hst : w.stack = top :: rest) (r : Path) (hr : r ≠ []) (hrl : r.length ≤ 256)
-    (hrp : specPage r = top.pageId) (n : Node) (d' : PageDiff) :
+    (hrp : specPage r = top.pageId) (n : Node) (d' : PageDiff)
+    (hd' : ∀ i, i < 126 → (top.diff.changed i = true ∨ i = specIndex r) → d'.changed i = true) :
     Sim H ps { w with stack := { top with page := { top.page with nodes := top.page.nodes.set (specIndex r) n },
                                           diff := d' } :: rest }
       { a with store := upd a.store r n } := by
@@ -243,6 +264,17 @@ theorem sim_write_top {w : Walker Node} {a : TW Node} (h : Sim H ps w a) (top : 
   apply sim_update_top H ps h top rest hst
   · rfl
   · exact h.counters top (by rw [hst]; simp)
+  · obtain ⟨base, hb, hdn⟩ := h.diffs top (by rw [hst]; simp)
+    refine ⟨base, hb, ?_⟩
+    intro i hi hne
+    apply hd' i hi
+    by_cases e : i = specIndex r
+    · exact Or.inr e
+    · left
+      apply hdn i hi
+      simp only at hne
+      rw [getD_set_ne _ _ _ _ _ (Ne.symm e)] at hne
+      exact hne
   · refine ⟨by simp [hlen], ?_⟩
     intro q hq hql hqp
     simp only at hqp
@@ -285,30 +317,35 @@ theorem sim_setNode {w : Walker Node} {a : TW Node} (h : Sim H ps w a) (hd : 6 *
     rw [pos_depth_pos h.wf h.pos]; exact List.length_pos_iff.mpr hne
   have hidx := (wf_nodeIndex_lt w.position h.wf hdepth).1
   have hni : w.position.nodeIndex = specIndex a.pos := by rw [h.wf.idx, h.pos]
-  have hsim := fun d' => sim_write_top H ps h top rest hst a.pos hne (sim_len H ps h) htop.symm n d'
+  have hsim := fun d' hd' => sim_write_top H ps h top rest hst a.pos hne (sim_len H ps h) htop.symm n d' hd'
   unfold Walker.setNode
   rw [sim_siblingNode H ps h hd, hst]
   simp only [Page.setNode, hidx, if_true]
-  have hchg : ∀ d : PageDiff, ∃ d', diffSetChanged d w.position.nodeIndex = .ok d' := by
+  have hchg : ∀ d : PageDiff, ∃ d', diffSetChanged d w.position.nodeIndex = .ok d' ∧
+      ∀ i, i < 126 → (d.changed i = true ∨ i = w.position.nodeIndex) → d'.changed i = true := by
     intro d
-    unfold diffSetChanged PageDiff.setChanged
-    have : w.position.nodeIndex < Wal.NODES_PER_PAGE := hidx
-    simp [this]
-  by_cases hc : w.preFix = true ∧
-      (w.position.isFirstLayerInPage && decide (n = H.term) && decide (a.sib = H.term)) = true
-  · rw [if_pos hc]
-    refine ⟨_, rfl, ?_, Same.rfl' _, rfl, rfl, rfl⟩
-    have := hsim top.diff.setCleared
-    rw [← hni] at this
-    exact this
-  · rw [if_neg hc]
-    obtain ⟨d', hd'⟩ := hchg top.diff
-    rw [hd']
-    refine ⟨_, rfl, ?_, Same.rfl' _, rfl, rfl, rfl⟩
-    have := hsim (if (w.position.isFirstLayerInPage && decide (n = H.term) && decide (a.sib = H.term)) = true
-      then d'.setCleared else d')
-    rw [← hni] at this
-    exact this
+    obtain ⟨d', h1, h2⟩ := PageDiff.setChanged_ok d hidx
+    refine ⟨d', by unfold diffSetChanged; rw [h1], ?_⟩
+    intro i hi hor
+    rw [h2 i (by omega)]
+    have : i ≠ 127 := by omega
+    rcases hor with hh | hh
+    · simp [this, hh]
+    · subst hh; simp [this]
+  rw [if_neg (by rw [h.nofix]; simp)]
+  obtain ⟨d', hd', hd2⟩ := hchg top.diff
+  rw [hd']
+  refine ⟨_, rfl, ?_, Same.rfl' _, rfl, rfl, rfl⟩
+  have := hsim (if (w.position.isFirstLayerInPage && decide (n = H.term) && decide (a.sib = H.term)) = true
+    then d'.setCleared else d') (by
+      intro i hi hor
+      rw [← hni] at hor
+      have := hd2 i hi hor
+      split
+      · rw [PageDiff.changed_setCleared, this]; rfl
+      · exact this)
+  rw [← hni] at this
+  exact this
 
 /-- `set_sibling` -/
 theorem sim_setSibling {w : Walker Node} {a : TW Node} (h : Sim H ps w a) (hd : 6 * k0 w.parentPage < a.pos.length)
@@ -328,19 +365,25 @@ theorem sim_setSibling {w : Walker Node} {a : TW Node} (h : Sim H ps w a) (hd : 
     have := congrArg List.length e
     rw [sibPath_length] at this
     exact hne (List.eq_nil_of_length_eq_zero this)
-  have hsim := fun d' => sim_write_top H ps h top rest hst (sibPath a.pos) hsne
-    (by rw [sibPath_length]; exact sim_len H ps h) (by rw [specPage_sibPath]; exact htop.symm) n d'
+  have hsim := fun d' hd' => sim_write_top H ps h top rest hst (sibPath a.pos) hsne
+    (by rw [sibPath_length]; exact sim_len H ps h) (by rw [specPage_sibPath]; exact htop.symm) n d' hd'
   unfold Walker.setSibling
   rw [hst]
   simp only [Page.setNode, hidx, if_true]
-  have hchg : ∃ d', diffSetChanged top.diff w.position.siblingIndex = .ok d' := by
-    unfold diffSetChanged PageDiff.setChanged
-    have : w.position.siblingIndex < Wal.NODES_PER_PAGE := hidx
-    simp [this]
-  obtain ⟨d', hd'⟩ := hchg
+  have hchg : ∃ d', diffSetChanged top.diff w.position.siblingIndex = .ok d' ∧
+      ∀ i, i < 126 → (top.diff.changed i = true ∨ i = w.position.siblingIndex) → d'.changed i = true := by
+    obtain ⟨d', h1, h2⟩ := PageDiff.setChanged_ok top.diff hidx
+    refine ⟨d', by unfold diffSetChanged; rw [h1], ?_⟩
+    intro i hi hor
+    rw [h2 i (by omega)]
+    have : i ≠ 127 := by omega
+    rcases hor with hh | hh
+    · simp [this, hh]
+    · subst hh; simp [this]
+  obtain ⟨d', hd', hd2⟩ := hchg
   rw [hd']
   refine ⟨_, rfl, ?_, Same.rfl' _, rfl, rfl, rfl⟩
-  have := hsim d'
+  have := hsim d' (by intro i hi hor; rw [← hsi] at hor; exact hd2 i hi hor)
   rw [← hsi] at this
   exact this
 
